@@ -495,6 +495,16 @@ fn dump_doc(idx: &str, flags: &str, input: &str, opt: ParsingOptions, doc: &Docu
                 Ok(())
             }
         }
+        // the number of lines of the Debug output of the document (the traversal is modelled)
+        struct Lines(usize);
+        impl std::fmt::Write for Lines {
+            fn write_str(&mut self, s: &str) -> std::fmt::Result {
+                self.0 += s.bytes().filter(|b| *b == b'\n').count();
+                Ok(())
+            }
+        }
+        let mut lc = Lines(0);
+        write!(lc, "{:?}", doc).unwrap();
         let mut c = Count(0);
         write!(c, "{:?}", doc).unwrap();
         for node in doc.descendants() {
@@ -508,7 +518,7 @@ fn dump_doc(idx: &str, flags: &str, input: &str, opt: ParsingOptions, doc: &Docu
                 write!(c, "{:?}", ns).unwrap();
             }
         }
-        writeln!(o, "{} G ok", idx).unwrap();
+        writeln!(o, "{} G ok {}", idx, lc.0).unwrap();
     }
 }
 
@@ -525,7 +535,7 @@ fn run_case(idx: &str, flags: &str, dtd: bool, limit: u32, input: &str, o: &mut 
             writeln!(o, "{} {}", idx, error_line(&e)).unwrap();
             if flags.contains('g') {
                 let _ = format!("{}{:?}", e, e);
-                writeln!(o, "{} G ok", idx).unwrap();
+                writeln!(o, "{} G ok 0", idx).unwrap();
             }
         }
     }
